@@ -23,6 +23,9 @@ def run(ctx):
     S.t7_raw_key_normal_form(ctx)
     S.w_insertion_discipline(ctx)
     S.w3_shared_logic(ctx)
+    from ..engines import labelkind as LK
+    LK.k8_strategy_parent_pairing(ctx, modules=("specification_extrator", "rule_db.base"))
+    ctx.floor("K8", 3)
     # ClassDB calls on the recomputation path must be total for never-labelled classes
     gi = ctx.P.need_method("RecomputingDict", "__getitem__", own=True)
     entry = set()
